@@ -40,7 +40,8 @@ def fingerprint(r):
     writer_res = (o.get("r2") or [None])[0]
     return {"kind": v.get("kind"), "relation": s["relation"], "reader": s["op1"], "writer": s["op2"], "buffered": bool(s.get("ctx")), "family": s["fam"],
             "reader_result": reader_res, "writer_result": writer_res, "classes": sorted({c[0] for c in v.get("classes", [])}),
-            "has_COUNT": any(c[0] == "COUNT" for c in v.get("classes", [])), "has_BUF": any(c[0] == "BUF" for c in v.get("classes", []))}
+            "has_COUNT": any(c[0] == "COUNT" for c in v.get("classes", [])), "has_BUF": any(c[0] == "BUF" for c in v.get("classes", [])),
+            "reader_window": v.get("t1_window")}
 
 
 def main(tier, seed):
